@@ -394,6 +394,8 @@ def classify(src, what):
         return "C01:indentation-depth-limit"
     if "Exceeds the limit" in what and "integer string conversion" in what:
         return "C01:integer-constant-beyond-int-str-digit-limit"
+    if "did not finish" in what and re.search(r"""['"\])]\s*\*\s*\d+\s*\*\*\s*\d+""", src):
+        return "C01:constant-folding-materialises-a-huge-sequence"
     if ("duplicate argument" in what or "keyword argument repeated" in what) and "\ufb01" in src:
         return "C01:nfkc-colliding-identifiers-in-one-parameter-or-keyword-list"
     return None
@@ -418,6 +420,7 @@ def mutate(r, src):
 
 
 PROBES = [
+    ("default", "{{ 'a'*10**8 }}"),       # known finding C01-folding-blowup
     ("default", "{% macro m(a, a) %}{% endmacro %}"),
     ("default", "{{ f(a=1, a=2) }}"),
     ("default", "{% call(a, a) m() %}{% endcall %}"),
@@ -588,7 +591,7 @@ def oracle(ctx):
     ctx.evaluations += len(work)
     starts = ("{{", "{%", "{#", "<%", "<!--", "$%", "${", "$#", "#")
     ctx.nontrivial.update(("o", c, s) for c, s in seen if any(x in s for x in starts))
-    ctx.samples.append({"config": "ext", "source": PROBES[6][1], "outcome": "TemplateSyntaxError (line 1)"})
+    ctx.samples.append({"config": "ext", "source": PROBES[7][1], "outcome": "TemplateSyntaxError (line 1)"})
     ctx.extra["oracle_wall_s"] = round(time.time() - t0, 1)
 
 
